@@ -735,6 +735,14 @@ def subst_locals(func_node: ast.AST, expr: ast.AST, depth: int = 3) -> ast.AST:
                 for t_, v_ in zip(n.targets[0].elts, n.value.elts):
                     if isinstance(t_, ast.Name) and not any(isinstance(z, ast.Name) and z.id in {q.id for q in n.targets[0].elts if isinstance(q, ast.Name)} for z in ast.walk(v_)):
                         vals[t_.id] = v_
+            # `head, _ = s.rsplit(".", 1)` / `a, _, b = s.partition(x)`: each name is its element of the (pure) split
+            if len(n.targets) == 1 and isinstance(n.targets[0], (ast.Tuple, ast.List)) and isinstance(n.value, ast.Call) and isinstance(n.value.func, ast.Attribute) \
+                    and n.value.func.attr in ("split", "rsplit", "partition", "rpartition") and not any(isinstance(e_, ast.Starred) for e_ in n.targets[0].elts):
+                own = {q.id for q in n.targets[0].elts if isinstance(q, ast.Name)}
+                if not any(isinstance(z, ast.Name) and z.id in own for z in ast.walk(n.value)):
+                    for i_, t_ in enumerate(n.targets[0].elts):
+                        if isinstance(t_, ast.Name):
+                            vals[t_.id] = ast.Subscript(value=n.value, slice=ast.Constant(i_), ctx=ast.Load())
         elif isinstance(n, (ast.AugAssign, ast.AnnAssign)) and isinstance(n.target, ast.Name):
             counts[n.target.id] = counts.get(n.target.id, 0) + (1 if isinstance(n, ast.AnnAssign) and n.value is not None else 2)
             if isinstance(n, ast.AnnAssign) and n.value is not None:
